@@ -243,6 +243,21 @@ Theorem C16_reentrant_inner_first : forall f fn pre inner v post,
 Proof. exact reentrant_inner_first. Qed.
 Print Assumptions C16_reentrant_inner_first.
 
+(* call arguments alias too: a struct held by value inside a pointer-bridged
+   struct, passed to a pointer parameter, is the live struct (the callee's
+   writes are read back by both sides); a value parameter gets a copy *)
+Theorem C16_pointer_param_alias : forall st by_ js,
+  (2 <= length st)%nat ->
+  let '(st1, r) := pstep st (PBump 0 0 by_) in
+  r = o_num (nth 0 st 0 + by_) /\ snd (pstep st1 (PRead js 0)) = o_num (nth 0 st 0 + by_) /\
+  snd (pstep st1 (PRead js 1)) = o_num 1.
+Proof. exact pointer_param_alias. Qed.
+Print Assumptions C16_pointer_param_alias.
+
+Theorem C16_value_param_copies : forall st t by_, fst (pstep st (PBump t 1 by_)) = st.
+Proof. exact value_param_copies. Qed.
+Print Assumptions C16_value_param_copies.
+
 (* non-vacuity of the implications above *)
 Example C16_exact_hyp_met :
   src_wf (KF64, 4617315517961601024) = true /\
